@@ -88,6 +88,113 @@ class Sim:
         self.calls: list[str] = []   # human readable replay
         self.internal_error: tuple[str, str] | None = None
         self.unitary_bad: tuple[str, str] | None = None
+        # read-only probes use their own stream: they never perturb a history
+        self.prng = random.Random(0x5EED)
+        self.probe_p = 0.3
+
+    # --------------------------------------------------------------- probes
+    def probes(self, c, grid) -> list[str]:
+        """Read-only public accessors that are not part of the model's view
+        line, each compared with what the grid (read cell by cell) says.
+        Returns the names of the accessors that do not describe the grid."""
+        from bqskit.ir.circuit import Circuit
+        rng = self.prng
+        n, nc = c.num_qudits, c.num_cycles
+        bad: list[str] = []
+        occ = {(k, q): op for k, ops in enumerate(grid)
+               for op, cells in ops for q in cells}
+
+        def chk(name, fn):
+            try:
+                if not fn():
+                    bad.append(name)
+            except Exception as e:    # valid arguments only are generated
+                bad.append(f'{name}!{type(e).__name__}')
+
+        def last_occ(q):
+            ks = [k for (k, qq) in occ if qq == q]
+            return max(ks) if ks else None
+
+        for q in range(n):
+            chk('is_qudit_idle', lambda: c.is_qudit_idle(q)
+                == (last_occ(q) is None))
+        for _ in range(2):
+            loc = rng.sample(range(n), rng.randint(1, min(3, n)))
+            chk('find_available_cycle', lambda: c.find_available_cycle(loc)
+                == max([0] + [last_occ(q) + 1 for q in loc
+                              if last_occ(q) is not None]))
+            if nc:
+                k = rng.randrange(nc)
+                chk('is_cycle_unoccupied', lambda: c.is_cycle_unoccupied(
+                    k, loc) == all((k, q) not in occ for q in loc))
+        if occ:
+            pts = sorted(occ)
+            for pt in rng.sample(pts, min(3, len(pts))):
+                chk('get_operation', lambda: c.get_operation(pt) is occ[pt])
+                op = occ[pt]
+                chk('count', lambda: c.count(op) == sum(
+                    1 for ops in grid for o, _ in ops if o == op))
+                chk('count-gate', lambda: c.count(op.gate) == sum(
+                    1 for ops in grid for o, _ in ops if o.gate == op.gate))
+                chk('contains', lambda: (op in c) and (op.gate in c))
+
+                def first_point(gate_only):
+                    for k in range(nc):
+                        for q in range(n):
+                            if (k, q) not in occ:
+                                continue
+                            if gate_only and occ[k, q].gate == op.gate:
+                                return (k, q)
+                            if not gate_only and occ[k, q] == op:
+                                return (k, op.location[0])
+                chk('point', lambda: tuple(c.point(op))
+                    == first_point(False))
+                chk('point-gate', lambda: tuple(c.point(op.gate))
+                    == first_point(True))
+                chk('from_operation', lambda: (
+                    lambda d: d.num_qudits == op.num_qudits
+                    and tuple(d.radixes) == tuple(op.radixes)
+                    and d.num_operations == 1
+                    and d[0, 0].gate == op.gate
+                    and list(d[0, 0].location) == list(range(op.num_qudits))
+                    and list(d[0, 0].params) == list(op.params))(
+                        Circuit.from_operation(op)))
+            # points incl. idle ones; duplicates of one operation collapse
+            sel = [(rng.randrange(nc), rng.randrange(n))
+                   for _ in range(rng.randint(1, 5))]
+            exp = []
+            for pt in sel:
+                if pt in occ and not any(
+                        e[0] == pt[0] and e[1] is occ[pt] for e in exp):
+                    exp.append((pt[0], occ[pt]))
+            chk('get_operations', lambda: (lambda got: len(got) == len(exp)
+                and all(g is e[1] for g, e in zip(got, exp)))(
+                    c.get_operations(sel)))
+            if exp:
+                def slice_ok():
+                    d = c.get_slice(sel)
+                    qs = sorted({q for _, o in exp for q in o.location})
+                    if tuple(d.radixes) != tuple(c.radixes[q] for q in qs):
+                        return False
+                    want = {q: [] for q in qs}
+                    for k, o in sorted(exp, key=lambda e: e[0]):
+                        for q in o.location:
+                            want[q].append((o.gate, tuple(
+                                qs.index(x) for x in o.location),
+                                tuple(o.params)))
+                    got = {q: [] for q in qs}
+                    for k in range(d.num_cycles):
+                        for j, q in enumerate(qs):
+                            if not d.is_point_idle((k, j)):
+                                o = d[k, j]
+                                got[q].append((o.gate, tuple(o.location),
+                                               tuple(o.params)))
+                    return got == want
+                chk('get_slice', slice_ok)
+            reg = rand_region_plain(rng, c)
+            chk('is_valid_region', lambda: c.is_valid_region(reg)
+                == region_valid_oracle(grid, reg))
+        return bad
 
     # ------------------------------------------------------------ rendering
     def block_gid(self, gate) -> int:
@@ -182,6 +289,9 @@ class Sim:
             f'blocks={nblocks}',
             f'inv={inv}',
         ]
+        if self.prng.random() < self.probe_p:
+            pb = self.probes(c, grid)
+            parts.append('probes=' + (','.join(sorted(set(pb))) or 'ok'))
         return ' '.join(parts)
 
     # ------------------------------------------------------------ recording
@@ -279,6 +389,41 @@ INTERNAL = (KeyError, AssertionError, AttributeError, RuntimeError,
             ZeroDivisionError, RecursionError, UnboundLocalError, NameError)
 
 
+def rand_region_plain(rng, c):
+    qs = rng.sample(range(c.num_qudits), rng.randint(1, min(4, c.num_qudits)))
+    out = {}
+    for q in qs:
+        lo = rng.randrange(c.num_cycles)
+        hi = rng.randint(lo, min(c.num_cycles - 1, lo + 3))
+        out[q] = (lo, hi)
+    return out
+
+
+def region_valid_oracle(grid, reg) -> bool:
+    """The documented meaning of a valid region, from the grid alone: no
+    dependency path leaves the set of operations lying fully inside the
+    region and comes back to it."""
+    ops = [(k, op) for k, cyc in enumerate(grid) for op, _ in cyc]
+    n = len(ops)
+    ins = {i for i, (k, op) in enumerate(ops)
+           if all(q in reg and reg[q][0] <= k <= reg[q][1]
+                  for q in op.location)}
+    last: dict[int, int] = {}
+    adj: list[set[int]] = [set() for _ in range(n)]
+    for i, (k, op) in enumerate(ops):       # grid order = cycle order
+        for q in op.location:
+            if q in last:
+                adj[last[q]].add(i)
+            last[q] = i
+    reach: list[set[int]] = [set() for _ in range(n)]
+    for i in reversed(range(n)):
+        for j in adj[i]:
+            reach[i].add(j)
+            reach[i] |= reach[j]
+    return not any(x not in ins and reach[x] & ins
+                   for a in ins for x in reach[a])
+
+
 def rand_point(sim: Sim, c, occupied_bias=0.8):
     rng = sim.rng
     if c.num_cycles > 0 and rng.random() < occupied_bias:
@@ -344,7 +489,7 @@ def run_history(alpha: Alphabet, seed: int, length: int, kinds=None) -> Sim:
         'compress': 2, 'save': 1, 'restore': 1, 'clear': 0.3, 'unfold': 4,
         'unfold_all': 1, 'fold': 6, 'straighten': 4, 'add': 1, 'iadd': 1,
         'mul': 1.5, 'inverse': 1, 'remove': 1, 'batch_unfold': 1, 'extend': 1,
-        'copy_eq': 0.5,
+        'copy_eq': 0.5, 'remove_all': 1,
     }
     if kinds:
         weights = {k: v for k, v in weights.items() if k in kinds}
@@ -513,6 +658,19 @@ def run_history(alpha: Alphabet, seed: int, length: int, kinds=None) -> Sim:
             line = 'batch_pop ' + ' '.join(f'{p[0]} {p[1]}' for p in pts)
             attempt(line, f'batch_pop({pts})', lambda: c.batch_pop(pts),
                     lambda r: 'ok ' + sim.circ_text(r))
+        elif kind == 'remove_all':
+            if c.num_operations == 0:
+                continue
+            ops = list(c.operations_with_cycles())
+            _, op = rng.choice(ops)
+            by_gate = rng.random() < 0.5
+            x = op.gate if by_gate else op
+            # all occurrences vanish; for the model: one batch_pop of them
+            pts = [(kk, oo.location[0]) for kk, oo in ops
+                   if (oo.gate == op.gate if by_gate else oo == op)]
+            line = 'batch_pop ' + ' '.join(f'{a} {b}' for a, b in pts)
+            attempt(line, f'remove_all({x!r})', lambda: c.remove_all(x),
+                    lambda r: 'IGN')
         elif kind == 'pop_cycle':
             ci = rng.randint(-c.num_cycles - 1, c.num_cycles)
             attempt(f'pop_cycle {ci}', f'pop_cycle({ci})',
